@@ -5,6 +5,7 @@ TODO: Handle sys.argv
 
 """
 
+import ast
 import sys
 import io
 import types
@@ -730,7 +731,7 @@ class Sandbox:
         """
         if isinstance(value, SandboxVariable):
             return value.name
-        if len(repr(value)) <= self.MAXIMUM_TEMPORARY_LENGTH:
+        if len(repr(value)) <= self.MAXIMUM_TEMPORARY_LENGTH and self._is_literal_repr(repr(value)):
             return repr(value)
         key = '_temporary_{}_{}'.format(category, name)
         if key in self.data:
@@ -738,6 +739,16 @@ class Sandbox:
         self._temporary_variables.add(key)
         self.data[key] = value
         return key
+
+    @staticmethod
+    def _is_literal_repr(text):
+        """ Can this ``repr`` be pasted into source code and give the value
+        back? Not so for ``inf``, ``nan``, classes, functions, objects... """
+        try:
+            ast.literal_eval(text)
+        except (ValueError, SyntaxError, TypeError, MemoryError, RecursionError):
+            return False
+        return True
 
     def make_safe_variable(self, name):
         """
